@@ -123,13 +123,18 @@ type request struct {
 	timestamp time.Time
 }
 
-func genRequest(t *rapid.T) request {
-	// mostly small images; one in eight is larger (up to 48 pages) so that size-dependent arithmetic is reached
-	maxPages := 8
-	if rapid.IntRange(0, 7).Draw(t, "bigImage") == 0 {
-		maxPages = 48
+func genRequest(t *rapid.T) request { return genRequestSized(t, 0, 0) }
+
+// genRequestSized: minPages..maxPages bound the image size (0, 0 = the usual distribution).
+func genRequestSized(t *rapid.T, minPages, maxPages int) request {
+	if maxPages == 0 {
+		// mostly small images; one in eight is larger (up to 48 pages) so that size-dependent arithmetic is reached
+		minPages, maxPages = 1, 8
+		if rapid.IntRange(0, 7).Draw(t, "bigImage") == 0 {
+			maxPages = 48
+		}
 	}
-	l := fwgen.GenValid(t, fwgen.Options{MinPages: 1, MaxPages: maxPages, WantSev: true, WantTdx: true, MaxSevSections: 6, MaxTempMem: 3})
+	l := fwgen.GenValid(t, fwgen.Options{MinPages: minPages, MaxPages: maxPages, WantSev: true, WantTdx: true, MaxSevSections: 6, MaxTempMem: 3})
 	r := request{layout: l, image: l.Spec.Build()}
 	switch rapid.IntRange(0, 3).Draw(t, "tech") {
 	case 0:
